@@ -20,9 +20,9 @@ Others == { DepositIn("uswap", 5), DepositIn("uusdc", 5), PauseAction("AUTH", "S
 MCAlphabet == Transfers \cup Others
 SmallAlphabet == MCAlphabet
 
-StepProps == [][ Prop_C06(last') /\ Prop_C01(last') /\ Prop_C02(last') /\ Prop_C05(last') /\ Prop_C09(last') /\ Prop_C12(last') ]_vars
+StepProps == [][ Prop_C06(last') /\ Prop_C01(last') /\ MC_C02(last') /\ Prop_C05(last') /\ Prop_C09(last') /\ Prop_C12(last') ]_vars
 P01 == [][Prop_C01(last')]_vars
-P02 == [][Prop_C02(last')]_vars
+P02 == [][MC_C02(last')]_vars
 P05 == [][Prop_C05(last')]_vars
 P06 == [][Prop_C06(last')]_vars
 P09 == [][Prop_C09(last')]_vars
